@@ -153,6 +153,58 @@ def its_iso(a, b):
     return OR(alts)
 
 
+def _side_graphs(its):
+    """the two unmapped sides of an ITS: per side a graph of the atoms with (element, hydrogens, charge) and the bonds
+    present on that side.  A hydrogen node bonded to a heavy atom on that side is counted on the heavy atom (H-H and a
+    free proton stay atoms), so how a result writes its hydrogens does not matter."""
+    nl, el = its_labels(its)
+    out = []
+    for s in (0, 1):
+        g = nx.Graph()
+        for v, t in nl.items():
+            g.add_node(v, lab=(t[s][0], t[s][2], t[s][3]))
+        for k, o in el.items():
+            u, v = tuple(k)
+            if not (isinstance(o[s], (int, float)) and o[s] == 0):
+                g.add_edge(u, v, order=o[s])
+        for v in list(g.nodes):
+            if g.nodes[v]["lab"][0] != "H":
+                continue
+            heavy = [w for w in g.neighbors(v) if g.nodes[w]["lab"][0] != "H"]
+            if heavy:
+                w = heavy[0]
+                e, h, c = g.nodes[w]["lab"]
+                g.nodes[w]["lab"] = (e, h + 1, c)
+                g.remove_node(v)
+        out.append(g)
+    return out
+
+
+def sides_iso(a, b):
+    """formula: a and b have isomorphic unmapped reactant sides and isomorphic unmapped product sides (what a comparison
+    of standardised, atom-map-free reaction SMILES sees)"""
+    from vf.graphs import iso_formula
+
+    conj = []
+    for ga, gb in zip(_side_graphs(a), _side_graphs(b)):
+        conj.append(iso_formula(ga, gb, lambda u, v: EQ(ga.nodes[u]["lab"], gb.nodes[v]["lab"]),
+                                lambda e, f: EQ(ga[e[0]][e[1]]["order"], gb[f[0]][f[1]]["order"])))
+        if conj[-1] is False:
+            return False
+    return AND(conj)
+
+
+def regenerated(E, res, want, norm=None):
+    """formula: `want` is among the results.  Decided on the mapped ITS first (isomorphism); only if that can fail on this
+    path is the weaker reading added that the property's observation point (standardised unmapped SMILES) allows: some
+    result has the same unmapped reactants and products."""
+    rs = [norm(r) for r in res] if norm else list(res)
+    strict = OR([its_iso(r, want) for r in rs])
+    if strict is True or not E.feasible(NOT(strict)):
+        return True
+    return OR(strict, OR([sides_iso(r, want) for r in rs]))
+
+
 def its_equal_sets(A, B):
     """formula: lists of ITS graphs A and B are equal as sets up to isomorphism."""
     M = [[its_iso(a, b) for b in B] for a in A]
